@@ -31,6 +31,18 @@ def extra_cases(rng, quick):
         decls = ";".join("p%d:%s%s" % (i, n, u) for i, n in enumerate(nums))
         out.append((dict(o), ".a{" + decls + "}"))
         out.append((dict(o, rpx_ratio=100), "@media (min-width:%s%s){.a{%s}}" % (nums[rng.below(len(nums))], u, decls)))
+    # block at-rules that hold no rule list, nested in at-rules that do, before / after :host rules (every rule keeps all its wrappers in whichever
+    # output it goes to)
+    oh = dict(o, convert_host=True, class_prefix="p")
+    wraps = ["@media (min-width: 100px)", "@supports (display: grid)", "@layer base", "@container (width > 1px)"]
+    inner = ["@keyframes k{from{left:0}to{left:10rpx}}", "@font-face{font-family:X}", "@page{margin:1rpx}", "@property --x{syntax:'<length>';inherits:false}"]
+    for w in wraps:
+        for b in inner:
+            out.append((dict(oh), "%s{%s :host{color:red} .a .b{color:blue}}" % (w, b)))
+            out.append((dict(oh), "%s{:host{color:red} %s .a .b{color:blue} :host(.c){top:1rpx}}" % (w, b)))
+            for w2 in wraps[:2]:
+                out.append((dict(oh), "%s{%s{%s :host{color:red}} %s :host{color:green} .d{left:2rpx}}" % (w, w2, b, b)))
+            out.append((dict(o), "%s{%s .a .b{color:blue}}" % (w, b)))
     return out
 
 
